@@ -201,6 +201,12 @@ def _profile_oracle_problems(kind, known, read, delta, gene_profile, read_profil
         matches = [f for f in known if abs(r[0] - f[0]) <= delta and abs(r[1] - f[1]) <= delta]
         if read_profile[j] == 1 and not matches:
             problems.append("read %s %s marked matched without an annotated match" % (kind, r))
+        # the converse, in the one form that holds whatever the sizes of the features: a read feature IDENTICAL to an annotated one
+        # is always found (however the annotated features nest or overlap)
+        if tuple(r) in [tuple(f) for f in known]:
+            i = [tuple(f) for f in known].index(tuple(r))
+            if gene_profile[i] not in (1, -2) or read_profile[j] != 1:
+                problems.append("read %s %s equals annotated %s #%d but profiles say gene %r / read %r" % (kind, r, kind, i, gene_profile[i], read_profile[j]))
     return problems
 
 
@@ -254,7 +260,33 @@ def _profile_case(known, read_blocks, delta):
     return problems
 
 
+def _nested_profile_case(known_feats, read_blocks, delta):
+    """annotated features that overlap and nest (introns of different isoforms): the sweep must still find identical features"""
+    from functools import partial
+    lrp = native.repo_import("src/long_read_profiles.py")
+    com = native.repo_import("src/common.py")
+    introns = com.junctions_from_blocks(read_blocks)
+    if not introns or not known_feats:
+        return []
+    region = (min(k[0] for k in known_feats), max(k[1] for k in known_feats))
+    problems = []
+    for absence in (com.contains, partial(com.overlaps_at_least, delta=2)):
+        c = lrp.OverlappingFeaturesProfileConstructor(known_feats, region, comparator=partial(com.equal_ranges, delta=delta),
+                                                      absence_condition=absence, delta=delta)
+        p = c.construct_intron_profile(read_blocks)
+        problems += _profile_oracle_problems("intron", known_feats, introns, delta, p.gene_profile, p.read_profile)
+    return problems
+
+
 def replay_profile(d):
+    i = d["inputs"]
+    if i.get("nested"):
+        p = _nested_profile_case([tuple(x) for x in i["known"]], [tuple(x) for x in i["read"]], i["delta"])
+        return (not p), "nested known %s read %s delta %d: %s" % (i["known"], i["read"], i["delta"], p or "consistent with the definitions")
+    return _replay_profile_plain(d)
+
+
+def _replay_profile_plain(d):
     i = d["inputs"]
     p = _profile_case([tuple(x) for x in i["known"]], [tuple(x) for x in i["read"]], i["delta"])
     return (not p), "known %s read %s delta %d: %s" % (i["known"], i["read"], i["delta"], p or "consistent with the definitions")
@@ -288,7 +320,24 @@ def c13_profiles(tier, rng):
                     return {"cases": cases, "bound": "small scope", "violations": [{
                         "obligation": "C13.profile_semantics", "inputs": {"known": known, "read": read, "delta": delta}, "observed": p[:3],
                         "required": "profile marks follow the property's definitions", "replay_call": "contracts.c_profiles:replay_profile"}]}
-    return {"cases": cases, "bound": "block lists with <= 3 blocks over %d coordinates, delta 0..2%s" % (len(coords), " (sampled)" if tier == "quick" else ""),
+    # overlapping / nested annotated features: all sorted sets of <= 3 intervals over a coarser grid, against reads with <= 3 blocks
+    grid = coords[::2]
+    ivs = [(a, b) for a in grid for b in grid if a + 1 < b]
+    sets_ = [sorted(c) for n in (2, 3) for c in itertools.combinations(ivs, n)]
+    reads_ = [l for l in block_lists(3) if len(l) >= 2]
+    if tier == "quick":
+        sets_ = rng.sample(sets_, min(len(sets_), 400))
+        reads_ = rng.sample(reads_, min(len(reads_), 40))
+    for known in sets_:
+        for read in reads_:
+            for delta in (0, 1):
+                cases += 1
+                p = _nested_profile_case(known, read, delta)
+                if p:
+                    return {"cases": cases, "bound": "small scope", "violations": [{
+                        "obligation": "C13.profile_semantics", "inputs": {"nested": True, "known": known, "read": read, "delta": delta}, "observed": p[:3],
+                        "required": "profile marks follow the property's definitions", "replay_call": "contracts.c_profiles:replay_profile"}]}
+    return {"cases": cases, "bound": "block lists with <= 3 blocks over %d coordinates, delta 0..2%s; nested annotated interval sets of <= 3" % (len(coords), " (sampled)" if tier == "quick" else ""),
             "exhaustive": tier != "quick", "violations": [], "samples": [{"known": [(1, 3), (6, 8)], "read": [(1, 3), (6, 9)], "delta": 1}]}
 
 
